@@ -5,6 +5,7 @@ From Coq Require Import NArith ZArith List.
 From Coq Require Import Reals.
 From Flocq Require Import Core IEEE754.Binary IEEE754.Bits.
 From KT Require Import Gen.Generated Gen.Alphabet Gen.FactsBase Gen.FactCentres Gen.FactCornersCgr Model.Rows Proof.CgrProof Proof.CgrFloat Proof.CgrExact.
+From KT Require Model.Pipeline Proof.PipelineProof.
 Import ListNotations.
 
 (* the corner table found in the code is the one the property names: A=(0,0), C=(0,S), G=(S,S), T,U=(S,0),
@@ -89,7 +90,14 @@ Proof. vm_compute. split; reflexivity. Qed.
 Theorem C11_centre_in_the_code : cgr_centre_is_half_cgr = true /\ cgr_centre_is_half_oligocgr = true.
 Proof. exact cgr_centres_ok. Qed.
 
+(* file level: the batch loop of CgrComputer::vectorise (push, flush when the buffered bases reach the limit, final
+   flush of a non-empty buffer) writes one row per record in input order - or refuses - whatever the limit *)
+Theorem C11_file_rows_in_input_order_for_every_batch_limit :
+  forall S mem recs, KT.Model.Pipeline.m_cgrfile_mem S mem recs = KT.Model.Pipeline.m_cgrfile S recs.
+Proof. exact KT.Proof.PipelineProof.cgrfile_batch_any_limit. Qed.
+
 Print Assumptions C11_corners.
+Print Assumptions C11_file_rows_in_input_order_for_every_batch_limit.
 Print Assumptions C11_one_point_per_base.
 Print Assumptions C11_one_point_per_base_b64.
 Print Assumptions C11_rejects_exactly_non_nucleotides.
